@@ -14,17 +14,20 @@
   DESIGN §5.0 I-3: for the padded schemes the null-space theorems are stated at the margin-2 interior
   (second derivatives) resp. margin-1 points (first derivatives), for forward_central_backward at every
   grid point and for the reduced loss; that the *reduced* default-mode (sobel) bending energy of an affine
-  field is NOT zero is proved as `C17_bending_default_affine_refuted` (finding F-17d).
+  field is NOT zero is proved as `C17_bending_default_affine_refuted` (finding F-17d, not repaired).
+  The model follows /repo after the repairs of F-17a/b/c/e/f/g/h (fix commits 4eb1789, eb24e6a, a498630,
+  1259250, 363ef5e, aeea172): their clauses are proved in full (`C17_lame`, `C17_ic_units`,
+  `C17_ic_reductions`, `C17_elasticity_bspline`).
 
   OBLIGATIONS: C17_bending_affine_zero C17_curvature_affine_zero C17_affine_zero_reduced
     C17_bending_default_affine_refuted C17_add_affine_invariant
     C17_grad_terms_translation_zero C17_translation_zero_reduced C17_affine_values C17_affine_values_23
     C17_nonneg C17_quadratic_scaling C17_quadratic_scaling_fd C17_scaling_reduced C17_spacing_power C17_tv_scaling
     C17_linear_transform_zero C17_reductions
-    C17_lame_partial C17_lame_refuted C17_lame_nuE_rejected C17_lame_lambdaE_intended
+    C17_lame
     C17_inverse_consistency_zero C17_inverse_consistency_zero_loss
-    C17_ic_units_as_coded C17_ic_units_partial C17_ic_units_refuted C17_ic_sum_is_mean
-    C17_bspline_bending_analytic C17_elasticity_bspline_shape_refuted
+    C17_ic_units C17_ic_reductions
+    C17_bspline_bending_analytic C17_elasticity_bspline
 
 -/
 import Deepali.Proofs.RegularizersIC
@@ -370,12 +373,12 @@ theorem C17_tv_scaling [CharZero K] (hD : 0 < D) (be : Backend D (Arr D K)) (hli
 
 /-! ## lame_parameters -/
 
-/-- FULL statement: every valid pair of elastic constants derived from one (λ, μ) — with
-    ν = λ / (2(λ+μ)), E = μ(3λ+2μ)/(λ+μ), and `r` the square root the (λ, E) branch needs — is mapped
-    back to (λ, μ).  (λ, μ ≥ 10⁻⁹: below that the code rounds to 0.) -/
-def C17_lame_Statement (K : Type) [Field K] [LinearOrder K] [IsStrictOrderedRing K] : Prop :=
-  ∀ (l m r : K), lameTiny ≤ l → lameTiny ≤ m →
-    r * r = youngOf l m * youngOf l m + 9 * (l * l) + 2 * youngOf l m * l → 0 ≤ r →
+/-- every valid pair of elastic constants derived from one (λ, μ) — with ν = λ / (2(λ+μ)),
+    E = μ(3λ+2μ)/(λ+μ), and `r` the square root the (λ, E) branch takes (`r² = E² + 9λ² + 2Eλ`, `r ≥ 0`) —
+    is mapped back to (λ, μ): (λ,μ), (λ,G), (λ,ν), (G,ν), (μ,ν), (G,E), (μ,E), (λ,E), (ν,E).
+    (λ, μ ≥ 10⁻⁹: below that the code rounds to 0.) -/
+theorem C17_lame (l m r : K) (hl : lameTiny ≤ l) (hm : lameTiny ≤ m)
+    (hr : r * r = youngOf l m * youngOf l m + 9 * (l * l) + 2 * youngOf l m * l) (hr0 : 0 ≤ r) :
     let sq : K → K := fun _ => r
     lameParameters sq .none (some l) (some m) none none none = .ok (l, m) ∧
     lameParameters sq .none (some l) none (some m) none none = .ok (l, m) ∧
@@ -385,52 +388,18 @@ def C17_lame_Statement (K : Type) [Field K] [LinearOrder K] [IsStrictOrderedRing
     lameParameters sq .none none none (some m) none (some (youngOf l m)) = .ok (l, m) ∧
     lameParameters sq .none none (some m) none none (some (youngOf l m)) = .ok (l, m) ∧
     lameParameters sq .none (some l) none none none (some (youngOf l m)) = .ok (l, m) ∧
-    lameParameters sq .none none none none (some (poissonOf l m)) (some (youngOf l m)) = .ok (l, m)
-
-/-- what holds: the seven pairs (λ,μ), (λ,G), (λ,ν), (G,ν), (μ,ν), (G,E), (μ,E) return the (λ, μ)
-    they came from (any square-root function: none of these branches uses it). -/
-theorem C17_lame_partial (sq : K → K) (l m : K) (hl : lameTiny ≤ l) (hm : lameTiny ≤ m) :
-    lameParameters sq .none (some l) (some m) none none none = .ok (l, m) ∧
-    lameParameters sq .none (some l) none (some m) none none = .ok (l, m) ∧
-    lameParameters sq .none (some l) none none (some (poissonOf l m)) none = .ok (l, m) ∧
-    lameParameters sq .none none none (some m) (some (poissonOf l m)) none = .ok (l, m) ∧
-    lameParameters sq .none none (some m) none (some (poissonOf l m)) none = .ok (l, m) ∧
-    lameParameters sq .none none none (some m) none (some (youngOf l m)) = .ok (l, m) ∧
-    lameParameters sq .none none (some m) none none (some (youngOf l m)) = .ok (l, m) :=
-  ⟨lame_first_second sq l m hl hm, lame_first_shear sq l m hl hm, lame_first_poisson sq l m hl hm,
+    lameParameters sq .none none none none (some (poissonOf l m)) (some (youngOf l m)) = .ok (l, m) := by
+  intro sq
+  exact ⟨lame_first_second sq l m hl hm, lame_first_shear sq l m hl hm, lame_first_poisson sq l m hl hm,
     lame_shear_poisson sq l m hl hm, lame_second_poisson sq l m hl hm, lame_shear_young sq l m hl hm,
-    lame_second_young sq l m hl hm⟩
+    lame_second_young sq l m hl hm, lame_first_young l m r hl hm hr hr0, lame_poisson_young sq l m hl hm⟩
 
-example : (lameTiny : ℚ) ≤ 1 := by unfold lameTiny; norm_num
-
-/-- F-17b: the statement fails. Witness λ = μ = 1 (E = 5/2, ν = 1/4, r = 9/2): the (λ, E) branch
-    returns μ = E − 3λ + r/4 = 5/8 instead of (E − 3λ + r)/4 = 1. -/
-theorem C17_lame_refuted : ¬ C17_lame_Statement ℚ := by
-  intro h
-  have h1 : (lameTiny : ℚ) ≤ 1 := by unfold lameTiny; norm_num
-  have hy : youngOf (1 : ℚ) 1 = 5 / 2 := by unfold youngOf; norm_num
-  have := (h 1 1 (9 / 2) h1 h1 (by rw [hy]; norm_num) (by norm_num)).2.2.2.2.2.2.2.1
-  rw [lame_first_young_coded, hy] at this
-  have h58 : (lameTiny : ℚ) ≤ 5 / 2 - ((3 : Nat) : ℚ) * 1 + 9 / 2 / ((4 : Nat) : ℚ) := by unfold lameTiny; norm_num
-  simp only [bind, Except.bind, pure, Except.pure, lameClip_ok _ _ h1, lameClip_ok _ _ h58] at this
-  have e := (Prod.mk.inj (Except.ok.inj this)).2
-  norm_num at e
-
-/-- F-17a: (ν, E) is rejected for EVERY input (`(1 + ν)(1 − 2ν)` calls a number). -/
-theorem C17_lame_nuE_rejected (sq : K → K) (nu E : K) :
-    lameParameters sq .none none none none (some nu) (some E) = .error "err:type" :=
-  lame_poisson_young_error sq nu E
-
-/-- the intended (λ, E) formula `(E − 3λ + r)/4` with `r² = E² + 9λ² + 2Eλ`, `r ≥ 0` does return μ
-    (so the one-token repair of F-17b is right). -/
-theorem C17_lame_lambdaE_intended (l m r : K) (hl : 0 < l) (hm : 0 < m)
-    (hr : r * r = youngOf l m * youngOf l m + 9 * (l * l) + 2 * youngOf l m * l) (hr0 : 0 ≤ r) :
-    (youngOf l m - 3 * l + r) / 4 = m :=
-  lame_first_young_intended l m r hl hm hr hr0
-
-example : (9 / 2 : ℚ) * (9 / 2) = youngOf (1 : ℚ) 1 * youngOf 1 1 + 9 * (1 * 1) + 2 * youngOf 1 1 * 1 := by
-  unfold youngOf; norm_num
-
+/-- the hypotheses are satisfiable: λ = μ = 1, E = 5/2, r = 9/2. -/
+example : (lameTiny : ℚ) ≤ 1 ∧
+    (9 / 2 : ℚ) * (9 / 2) = youngOf (1 : ℚ) 1 * youngOf 1 1 + 9 * (1 * 1) + 2 * youngOf 1 1 * 1 := by
+  constructor
+  · unfold lameTiny; norm_num
+  · unfold youngOf; norm_num
 
 end Ordered
 
@@ -468,36 +437,28 @@ theorem C17_inverse_consistency_zero_loss (sqrtF : K → K) (h0 : sqrtF 0 = 0) (
     (r : List K) (hr : icLoss sqrtF ac n spacing fwd inv mask margin units red = .ok r) : ∀ v ∈ r, v = 0 :=
   icLoss_zero sqrtF h0 ac n spacing fwd inv mask margin units red hz r hr
 
-/-- the unit factors as coded: 'voxel' multiplies component `i` of the cube-unit error by
-    `(n_i − 1)/2` — for BOTH `align_corners` conventions — and 'world' multiplies the voxel vector by
-    the spacing (anisotropic spacing is honoured per axis). -/
-theorem C17_ic_units_as_coded (n : Fin d → Nat) (h2 : ∀ i, 2 ≤ n i) (spacing e : Vec d K) :
-    icScale .cube n spacing e = e ∧
-    icScale .voxel n spacing e = (fun i => e i * ((n i : K) - 1) / 2) ∧
-    icScale .world n spacing e = (fun i => e i * ((n i : K) - 1) / 2 * spacing i) := by
-  refine ⟨rfl, icScale_voxel n h2 spacing e, ?_⟩
-  rw [icScale_world, icScale_voxel n h2]; rfl
-
-/-- FULL statement: the 'voxel' error vector is the cube-unit error vector mapped to grid (voxel)
-    units by the grid's own vector map for ITS `align_corners` convention (C01: `Grid.transform_vectors`);
-    'world' multiplies by the spacing, so it is right exactly when 'voxel' is. -/
-def C17_ic_units_Statement (K : Type) [Field K] [LinearOrder K] [IsStrictOrderedRing K] [FloorRing K] : Prop :=
-  ∀ (d : Nat) (g : Grid d K), g.Valid → ∀ (n : Fin d → Nat), (∀ i, g.sizeTensor i = (n i : K)) → (∀ i, 2 ≤ n i) →
-    ∀ e : Vec d K, icScale .voxel n g.spacing e = g.transformVectors (Axes.fromAlignCorners g.alignCorners) .grid e
-
-/-- what holds: grids with `align_corners = True`. -/
-theorem C17_ic_units_partial (g : Grid d K) (hv : g.Valid) (hac : g.alignCorners = true) (n : Fin d → Nat)
-    (hn : ∀ i, g.sizeTensor i = (n i : K)) (h2 : ∀ i, 2 ≤ n i) (e : Vec d K) :
-    icScale .voxel n g.spacing e = g.transformVectors (Axes.fromAlignCorners g.alignCorners) .grid e := by
-  have hc : g.CornersOK .cubeCorners := by
-    intro _ i
+/-- the error is reported in the requested unit for EITHER `align_corners` convention: 'cube' is the
+    error vector itself, 'voxel' is that vector mapped to grid (voxel) units by the grid's own vector map for
+    ITS convention (C01: `Grid.transform_vectors`, i.e. `n/2` resp. `(n−1)/2` per axis), 'world' multiplies the
+    voxel vector by the (anisotropic) spacing per axis — whose Euclidean norm is the world-space length for
+    an orthonormal direction. -/
+theorem C17_ic_units (g : Grid d K) (hv : g.Valid) (n : Fin d → Nat) (hn : ∀ i, g.sizeTensor i = (n i : K))
+    (h2 : ∀ i, 2 ≤ n i) (e : Vec d K) :
+    icScale .cube g.alignCorners n g.spacing e = e ∧
+    icScale .voxel g.alignCorners n g.spacing e = g.transformVectors (Axes.fromAlignCorners g.alignCorners) .grid e ∧
+    icScale .world g.alignCorners n g.spacing e
+      = (g.transformVectors (Axes.fromAlignCorners g.alignCorners) .grid e).mul g.spacing := by
+  have hc : ∀ a, g.CornersOK a := by
+    intro a _ i
     rw [hn i]
     have : (2 : K) ≤ (n i : K) := by exact_mod_cast h2 i
     intro e1; rw [e1] at this; norm_num at this
-  rw [hac, Axes.fromAlignCorners, transformVectors_eq hv _ _ hc (fun h => by cases h), icScale_voxel n h2]
-  funext i
-  simp only [fromGridLin, toGridLin, hn i]
-  ring
+  have hvox : icScale .voxel g.alignCorners n g.spacing e
+      = g.transformVectors (Axes.fromAlignCorners g.alignCorners) .grid e := by
+    rw [transformVectors_eq hv _ _ (hc _) (hc _), icScale_voxel g.alignCorners n h2]
+    funext i
+    cases hac : g.alignCorners <;> simp only [Axes.fromAlignCorners, fromGridLin, toGridLin, hn i, if_true, Bool.false_eq_true, if_false] <;> ring
+  exact ⟨rfl, hvox, by rw [icScale_world, hvox]⟩
 
 /-- 9×5 samples, spacing (3/2, 1/2), identity direction, align_corners = False. -/
 def icGrid : Grid 2 ℚ := ⟨![9, 5], ![0, 0], ![3 / 2, 1 / 2], ![![1, 0], ![0, 1]], false⟩
@@ -514,30 +475,29 @@ theorem icGrid_valid : icGrid.Valid := by
     fin_cases i <;> fin_cases j <;> simp [icGrid]
   · intro i; rw [icGrid_size]; fin_cases i <;> simp
 
-/-- F-17c: the statement fails for `align_corners = False`. Witness: 9×5 grid, error (1/10, 0) cube
-    units: the code reports 0.1·(9−1)/2 = 0.40 voxel, the grid's vector map gives 0.1·9/2 = 0.45. -/
-theorem C17_ic_units_refuted : ¬ C17_ic_units_Statement ℚ := by
-  intro h
-  have hn : ∀ i, icGrid.sizeTensor i = ((![9, 5] : Fin 2 → Nat) i : ℚ) := by
-    intro i; rw [icGrid_size]; fin_cases i <;> simp
+/-- non-vacuity, and the value F-17c was about: 0.1 cube units on the 9-sample axis of an
+    `align_corners=False` grid are 0.45 voxel. -/
+example : icScale .voxel icGrid.alignCorners ![9, 5] icGrid.spacing ![1 / 10, 0] 0 = 9 / 20 := by
   have h2 : ∀ i, 2 ≤ (![9, 5] : Fin 2 → Nat) i := by intro i; fin_cases i <;> simp
-  have := h 2 icGrid icGrid_valid ![9, 5] hn h2 ![1 / 10, 0]
-  rw [icScale_voxel _ h2, transformVectors_eq icGrid_valid _ _ (fun h => by simp [icGrid, Axes.fromAlignCorners] at h)
-    (fun h => by cases h)] at this
-  have e0 := congrFun this 0
-  simp only [fromGridLin, toGridLin, Axes.fromAlignCorners, show icGrid.alignCorners = false from rfl] at e0
-  rw [icGrid_size] at e0
-  norm_num at e0
+  rw [icScale_voxel _ _ h2]
+  simp [icGrid]; norm_num
 
-/-- F-17g / F-17h, as coded: `reduction="sum"` divides the sum by the number of evaluated points (it
-    returns the mean), and `reduction="mean"` with a mask divides by the number of non-zero mask values
-    of the WHOLE grid, whatever region (margin) the values come from. -/
-theorem C17_ic_sum_is_mean (n : Fin d → Nat) (mask : Option ((Fin d → Int) → K)) (mk : (Fin d → Int) → K) (vals : List K) :
-    icReduce .sum n mask vals = icReduce .mean n none vals ∧
-    icReduce .mean n (some mk) vals
-      = (if ((icPoints n).filter (fun idx => mk idx ≠ ((0 : Nat) : K))).length = 0 then .error "nan"
-         else .ok [lsum vals / ((((icPoints n).filter (fun idx => mk idx ≠ ((0 : Nat) : K))).length : Nat) : K)]) := by
-  constructor <;> simp [icReduce]
+/-- reductions of inverse_consistency_loss: 'none' returns the per-point values, 'sum' their sum, 'mean' the
+    sum divided by the number of evaluated points, or — with a mask — by the number of non-zero mask values
+    INSIDE the evaluated (margin-cropped) region `kept` (0/0 is nan). -/
+theorem C17_ic_reductions (mk : (Fin d → Int) → K) (kept : List (Fin d → Int)) (vals : List K) :
+    (∀ mask, icReduce .none mask kept vals = .ok vals) ∧
+    (∀ mask, icReduce .sum mask kept vals = .ok [lsum vals]) ∧
+    (vals ≠ [] → icReduce .mean none kept vals = .ok [lsum vals / ((vals.length : Nat) : K)]) ∧
+    ((kept.filter (fun idx => mk idx ≠ ((0 : Nat) : K))).length ≠ 0 →
+      icReduce .mean (some mk) kept vals
+        = .ok [lsum vals / ((((kept.filter (fun idx => mk idx ≠ ((0 : Nat) : K))).length : Nat) : K))]) := by
+  refine ⟨fun _ => rfl, fun _ => rfl, ?_, ?_⟩
+  · intro h
+    have : vals.length ≠ 0 := by intro e; exact h (List.length_eq_zero_iff.mp e)
+    simp [icReduce, this]
+  · intro h
+    simp only [icReduce, h, if_false]
 
 end IC
 
@@ -610,30 +570,27 @@ theorem C17_bending_default_affine_refuted : ¬ C17_bending_default_affine_State
 
 example : secondOrderMode none = .fd .sobel := rfl
 
-/-- FULL statement behind F-17e: elasticity_loss has a value in mode='bspline' for every coefficient
-    grid of size ≥ 5 and every stride (its accumulator and the derivative tensors have the same shape). -/
-def C17_elasticity_bspline_Statement : Prop :=
-  ∀ (D : Nat) (stride sz : Fin D → Nat), (∀ d, 1 ≤ stride d) → (∀ d, 5 ≤ sz d) →
-    elasticityShapeCheck sz (bsplineOutSize stride sz) = .ok ()
-
-/-- F-17e: it fails (D = 2, 5×5 coefficients, stride 1: derivative tensors are 2×2, the accumulator 5×5);
-    it holds exactly when `(n − 3)·stride = n` on every axis. -/
-theorem C17_elasticity_bspline_shape_refuted :
-    ¬ C17_elasticity_bspline_Statement ∧
-    (∀ (D : Nat) (stride sz : Fin D → Nat), (∀ d, stride d * (sz d - 3) = sz d) →
-      elasticityShapeCheck sz (bsplineOutSize stride sz) = .ok ()) := by
+/-- elasticity_loss has a value in mode='bspline' (after fix 1259250 the accumulator has the shape of the
+    derivative tensors): at every output point of the `(n−3)·stride` grid the density is `elasticityPt` of the
+    B-spline first derivatives, and the loss of a batch is returned for every reduction, stride, weight table,
+    spacing and coefficient grid. -/
+theorem C17_elasticity_bspline [DecidableEq K] (stride sz : Fin D → Nat) (wts : Fin D → Nat → Nat → Nat → K)
+    (lambd mu : K) (red : Reduction) (items : List ((Fin D → K) × (Fin D → Arr D K))) :
+    (∀ (sp : Fin D → K) (u : Fin D → Arr D K) (idx : Idx D),
+      elasticityField id (.bspline (bsplineDeriv stride wts sp)) lambd mu u idx
+        = some (elasticityPt lambd mu (fun i j => bsplineDeriv stride wts sp [j] (u i) idx))) ∧
+    (∃ r, regFinish red false (.batch (boxPoints (elasticityOutSize true stride sz))
+        (items.map (fun it => elasticityField id (.bspline (bsplineDeriv stride wts it.1)) lambd mu it.2))) = .ok r) := by
   constructor
-  · intro h
-    have := h 2 (fun _ => 1) (fun _ => 5) (fun _ => le_rfl) (fun _ => le_rfl)
-    revert this
-    decide
-  · intro D stride sz hs
-    unfold elasticityShapeCheck bsplineOutSize
-    have : (List.finRange D).any (fun d => stride d * (sz d - 3) != sz d) = false := by
-      rw [List.any_eq_false]
-      intro d _
-      simp [hs d]
-    rw [this]; rfl
+  · intro sp u idx
+    exact elasticityField_eq id _ lambd mu u idx
+  · apply regFinish_ok
+    intro f hf idx _
+    obtain ⟨it, _, rfl⟩ := List.mem_map.mp hf
+    rw [elasticityField_eq]; rfl
+
+example : elasticityOutSize (D := 2) true (fun _ => 2) (fun _ => 5) = fun _ => 4 := by
+  funext d; simp [elasticityOutSize, bsplineOutSize]
 
 end Misc
 end Deepali
